@@ -593,3 +593,53 @@ func logicalField(v ssa.Value) (ssa.Value, *types.Var, bool) {
 	}
 	return seeThrough(base), f, true
 }
+
+// ---- call sites of module functions --------------------------------------------------------------------------
+
+// staticCallSites returns every static call of fn inside the module, and whether fn is also used as a value
+// (address taken), in which case its callers are not all known.
+func staticCallSites(w *World, fn *ssa.Function) (sites []ssa.CallInstruction, valueUse bool) {
+	for _, g := range w.ModuleFuncs() {
+		eachInstr(g, func(in ssa.Instruction) {
+			site, isCall := in.(ssa.CallInstruction)
+			if isCall && site.Common().StaticCallee() == fn {
+				sites = append(sites, site)
+			}
+			for _, op := range in.Operands(nil) {
+				if *op == ssa.Value(fn) {
+					if isCall && site.Common().Value == ssa.Value(fn) {
+						continue
+					}
+					valueUse = true
+				}
+			}
+		})
+	}
+	return
+}
+
+// holdsAtEveryCall reports whether pred holds at every call site of the unexported helper fn (directly, or because the
+// calling function is itself such a helper whose call sites all satisfy pred). Used to let a guard protect code that a
+// refactoring moved into a small helper.
+func holdsAtEveryCall(w *World, fn *ssa.Function, pred func(caller *ssa.Function, site ssa.CallInstruction) bool, depth int) bool {
+	if depth > 4 {
+		return false
+	}
+	if obj := fn.Object(); obj == nil || obj.Exported() {
+		return false
+	}
+	sites, valueUse := staticCallSites(w, fn)
+	if valueUse || len(sites) == 0 {
+		return false
+	}
+	for _, s := range sites {
+		caller := s.Parent()
+		if pred(caller, s) {
+			continue
+		}
+		if !holdsAtEveryCall(w, caller, pred, depth+1) {
+			return false
+		}
+	}
+	return true
+}
